@@ -109,7 +109,7 @@ fn float_std_floor_is_spec() {
     }
 }
 
-// @ob props=C20 tier=quick kind=P cfg=core-libm,core-none,core-mm timeout=1500
+// @ob props=C20 tier=quick kind=P cfg=core-libm,core-none,core-mm timeout=2400
 // @fn libm::recip_sqrt ; fallback::recip_sqrt ; mm::recip_sqrt ; RecipSqrt::recip_sqrt
 // @clause the reciprocal square root of the active backend is finite and positive for every positive finite input, subnormals included (no overflow to infinity, no NaN); its accuracy against std is not decided
 #[cfg(not(feature = "std"))]
